@@ -1,36 +1,11 @@
 // Trait-level contract of `Join` / `LendJoin` (src/join/mod.rs:24-51, lend_join.rs:7-37) and the iterator invariants.
 // N8: LendJoin's generic associated type `Type<'next>` is collapsed to a plain associated type.
-pub type Index = u32;
-
-pub trait Join: Sized {
-    type Type;
-    type Value;
-    type Mask: BitSetLike;
-    // the set of indices this member contributes to the intersection
-    spec fn jmask(&self) -> Set<u32>;
-    // `get` may be called for id on value v  (the "id is in the mask that open returned" obligation)
-    spec fn get_pre(v: &Self::Value, id: Index) -> bool;
-    // what `get` returns for id
-    spec fn get_post(ov: &Self::Value, id: Index, r: &Self::Type, nv: &Self::Value) -> bool;
-
-    unsafe fn open(self) -> (r: (Self::Mask, Self::Value))
-        ensures
-            /*@L:trait.open.mask*/ r.0.bview() == self.jmask() /*@E*/,
-            /*@L:trait.open.pre*/ forall|id: Index| #![trigger Self::get_pre(&r.1, id)] self.jmask().contains(id) ==> Self::get_pre(&r.1, id) /*@E*/;
-
-    unsafe fn get(value: &mut Self::Value, id: Index) -> (r: Self::Type)
-        requires Self::get_pre(old(value), id),
-        ensures
-            /*@L:trait.get.item*/ Self::get_post(old(value), id, &r, final(value)) /*@E*/,
-            /*@L:trait.get.keeps*/ forall|j: Index| #![trigger Self::get_pre(final(value), j)] Self::get_pre(old(value), j) ==> Self::get_pre(final(value), j) /*@E*/;
-
-    fn is_unconstrained() -> bool;
-}
 
 impl<J: Join> JoinIter<J> {
     // the iterator still has to visit exactly `rem`, ascending, and may call get for each of them
     pub open spec fn wf(&self) -> bool {
-        forall|k: int| 0 <= k < self.keys.rem().len() ==> J::get_pre(&self.values, #[trigger] self.keys.rem()[k])
+        &&& forall|k: int| 0 <= k < self.keys.rem().len() ==> J::get_pre(&self.values, #[trigger] self.keys.rem()[k])
+        &&& forall|a: int, b: int| 0 <= a < b < self.keys.rem().len() ==> self.keys.rem()[a] < self.keys.rem()[b]
     }
 }
 
@@ -48,45 +23,33 @@ pub proof fn lemma_visit_order(m: Set<u32>)
     }
 }
 
-pub trait LendJoin: Sized {
-    type Type;
-    type Value;
-    type Mask: BitSetLike;
-    spec fn jmask(&self) -> Set<u32>;
-    spec fn get_pre(v: &Self::Value, id: Index) -> bool;
-    spec fn get_post(ov: &Self::Value, id: Index, r: &Self::Type, nv: &Self::Value) -> bool;
-
-    unsafe fn open(self) -> (r: (Self::Mask, Self::Value))
-        ensures
-            /*@L:trait.lend_open.mask*/ r.0.bview() == self.jmask() /*@E*/,
-            /*@L:trait.lend_open.pre*/ forall|id: Index| #![trigger Self::get_pre(&r.1, id)] self.jmask().contains(id) ==> Self::get_pre(&r.1, id) /*@E*/;
-
-    unsafe fn get(value: &mut Self::Value, id: Index) -> (r: Self::Type)
-        requires Self::get_pre(old(value), id),
-        ensures
-            /*@L:trait.lend_get.item*/ Self::get_post(old(value), id, &r, final(value)) /*@E*/,
-            /*@L:trait.lend_get.keeps*/ forall|j: Index| #![trigger Self::get_pre(final(value), j)] Self::get_pre(old(value), j) ==> Self::get_pre(final(value), j) /*@E*/;
-
-    fn is_unconstrained() -> bool;
+// members whose `get` may be called again for the same index (JoinLendIter::get / get_unchecked)
+pub trait RepeatableLendGet: LendJoin {
+    proof fn lemma_repeat(ov: &Self::Value, id: Index, r: &Self::Type, nv: &Self::Value)
+        requires Self::get_pre(ov, id), Self::get_post(ov, id, r, nv),
+        ensures Self::get_pre(nv, id);
 }
-pub trait RepeatableLendGet: LendJoin {}
 
 impl<J: LendJoin> JoinLendIter<J> {
-    // every member of the joined mask may be fetched (repeatably), and the remaining keys are a part of it
+    // for `next`: the remaining keys ascend strictly and each may be fetched
     pub open spec fn wf(&self) -> bool {
-        &&& forall|i: Index| #![trigger J::get_pre(&self.values, i)] self.keys.set_view().contains(i) ==> J::get_pre(&self.values, i)
-        &&& forall|k: int| 0 <= k < self.keys.rem().len() ==> self.keys.set_view().contains(#[trigger] self.keys.rem()[k])
+        &&& forall|k: int| 0 <= k < self.keys.rem().len() ==> J::get_pre(&self.values, #[trigger] self.keys.rem()[k])
+        &&& forall|a: int, b: int| 0 <= a < b < self.keys.rem().len() ==> self.keys.rem()[a] < self.keys.rem()[b]
+    }
+    // for `get` / `get_unchecked` (repeatable members only): every member of the joined mask may be fetched
+    pub open spec fn wf_all(&self) -> bool {
+        forall|i: Index| #![trigger J::get_pre(&self.values, i)] self.keys.set_view().contains(i) ==> J::get_pre(&self.values, i)
     }
 }
-
-// TRUSTED here, PROVED in unit alloc: EntitiesRes::is_alive(e) == alive_spec(e)
-#[verifier::external_body]
-pub struct EntitiesRes { x: u8 }
-impl EntitiesRes {
-    pub uninterp spec fn alive_spec(&self, e: Entity) -> bool;
-    #[verifier::external_body]
-    pub fn is_alive(&self, e: Entity) -> (r: bool)
-        ensures r == self.alive_spec(e)
-    { unimplemented!() }
+pub open spec fn repeatable<J: LendJoin>() -> bool {
+    forall|ov: &J::Value, id: Index, r: &J::Type, nv: &J::Value| J::get_pre(ov, id) && #[trigger] J::get_post(ov, id, r, nv) ==> J::get_pre(nv, id)
 }
-pub type Entities<'a> = &'a EntitiesRes;
+
+
+// trait BitAnd (src/join/bit_and.rs:4-7): the combined mask of a tuple of member masks is their intersection
+pub trait BitAnd {
+    type Value: BitSetLike;
+    spec fn and_view(&self) -> Set<u32>;
+    fn and(self) -> (r: Self::Value)
+        ensures /*@L:trait.and.view*/ r.bview() == self.and_view() /*@E*/;
+}
